@@ -80,6 +80,7 @@ class Ctx:
         self.locks = {}
         self.par = jobs_parallel or int(os.environ.get("VERIF_JOBS", "0")) or min(16, os.cpu_count() or 4)
         self.mk_cache = {}
+        self.kf_confirmed = set()
         self.t0 = time.time()
         self._gen_headers()
 
@@ -565,6 +566,10 @@ def _run_job(ctx, job, res):
 
     # ---- known findings: is the excluded class still violated? ------------
     for fid in active_kf:
+        with ctx.lock:
+            already = fid in ctx.kf_confirmed
+        if already:      # one solver confirmation per listed finding and run is enough
+            continue
         others = ["-DKF_EXCLUDE_" + f for f in active_kf if f != fid]
         gb2 = build_gb(ctx, job, "main", others + ["-DKF_ONLY_" + fid])
         props2, why = _cbmc(ctx, job, gb2, "main", res)
@@ -574,6 +579,8 @@ def _run_job(ctx, job, res):
             return
         if any(p["status"] != "SUCCESS" for p in props2):
             res.known.append(fid)
+            with ctx.lock:
+                ctx.kf_confirmed.add(fid)
         else:
             res.notes.append("listed finding %s no longer reproduces (excluded class is now clean)" % fid)
     res.status = "pass"
